@@ -37,7 +37,9 @@ pub fn random_stim(rng: &mut Rng, all: bool) -> Stim {
         5 => Stim::Di(rng.u8()),
         6 => Stim::Jumper(1 + rng.below(2) as u8, rng.bool()),
         7 => Stim::Uio(1 + rng.below(3) as u8, rng.bool()),
-        8 | 9 => Stim::Volt(rng.below(3) as u8, random_f32_bits(rng)),
+        // (checks that compare machines with == use `all = false`: a NaN that a broken clamp lets
+        // through would make every later equality fail, which is C14's finding, not theirs)
+        8 | 9 => Stim::Volt(rng.below(3) as u8, if all { random_f32_bits(rng) } else { (rng.below(700) as f32 / 100.0 - 1.0).to_bits() }),
         10 => Stim::BusWrite(rng.u8(), rng.u8()),
         11 => Stim::BusRead(rng.u8()),
         12 => Stim::Mode(rng.chance(1, 4)),
@@ -47,7 +49,7 @@ pub fn random_stim(rng: &mut Rng, all: bool) -> Stim {
             let len = rng.usize(241);
             let bytes = if rng.bool() { gen::uniform_image(rng, len) } else { gen::biased_image(rng, len) };
             let limit = gen::pick_limit(rng, bytes.len());
-            Stim::Load(Image { bytes, stack: *rng.pick(&[0u8, 16, 32, 48, 64, 99]), limit })
+            Stim::Load(Image { bytes, stack: *rng.pick(&[0u8, 16, 32, 48, 64, 99]), limit, keep_limit: rng.chance(1, 6) })
         }
         _ => Stim::BusWrite(0xF0 + rng.below(16) as u8, rng.u8()),
     }
@@ -140,7 +142,7 @@ impl Check for C13 {
             *i = rng.u8();
         }
         SeqScn {
-            setup: Setup { image: Image { bytes, stack, limit }, regs, pokes: vec![], inputs, asm_mode: rng.chance(1, 40) },
+            setup: Setup { image: Image { bytes, stack, limit, keep_limit: false }, regs, pokes: vec![], inputs, asm_mode: rng.chance(1, 40) },
             events,
             max_edges,
         }
